@@ -679,6 +679,61 @@ func c03Skeletons(quick bool, visit func(mod *sscope, size int)) {
 	}
 }
 
+// c03Siblings: an enclosing scope binds x and contains TWO sibling nested scopes; what the
+// first sibling declares (global / nonlocal / its own binding) must not change how the
+// second resolves x, in either order.
+func c03Siblings(quick bool, visit func(mod *sscope, size int)) {
+	type body []*sitem
+	mk := func(ks ...ikind) body {
+		var b body
+		for _, k := range ks {
+			b = append(b, &sitem{k: k, name: "x"})
+		}
+		return b
+	}
+	bodies := []body{mk(iGlobal, iBind), mk(iGlobal, iUse), mk(iGlobal), mk(iNonlocal, iBind), mk(iNonlocal, iUse), mk(iUse), mk(iBind, iUse), mk(iDel), mk(iGlobal, iDel)}
+	kinds := []sckind{scDef, scClass}
+	outers := []sckind{scDef, scClass, scModule}
+	for _, ok := range outers {
+		for _, k1 := range kinds {
+			for _, k2 := range kinds {
+				for _, b1 := range bodies {
+					for _, b2 := range bodies {
+						for _, later := range []bool{false, true} {
+							if later && (k1 != scDef || quick && k2 != scDef) {
+								continue
+							}
+							clone := func(b body) []*sitem {
+								var o []*sitem
+								for _, it := range b {
+									c := *it
+									o = append(o, &c)
+								}
+								return o
+							}
+							c1 := &sscope{kind: k1, items: clone(b1)}
+							c2 := &sscope{kind: k2, items: clone(b2)}
+							var items []*sitem
+							items = append(items, &sitem{k: iBind, name: "x"})
+							items = append(items, &sitem{k: iChild, child: c1, later: later})
+							items = append(items, &sitem{k: iChild, child: c2})
+							items = append(items, &sitem{k: iUse, name: "x"})
+							var mod *sscope
+							if ok == scModule {
+								mod = &sscope{kind: scModule, items: items}
+							} else {
+								outer := &sscope{kind: ok, items: items}
+								mod = &sscope{kind: scModule, items: []*sitem{{k: iBind, name: "x"}, {k: iChild, child: outer}, {k: iUse, name: "x"}}}
+							}
+							visit(mod, 6+len(b1)+len(b2))
+						}
+					}
+				}
+			}
+		}
+	}
+}
+
 func cloneScope(s *sscope, parent *sscope) *sscope {
 	c := *s
 	c.parent = parent
@@ -727,6 +782,16 @@ func c03Run(rc *core.RunCtx) {
 			return
 		}
 		c03One(c, cloneScope(mod, nil), size, 99)
+	})
+	rc.Part = "siblings"
+	c03Siblings(rc.Quick(), func(mod *sscope, size int) {
+		if rc.Expired() || rc.Done() {
+			return
+		}
+		if !rc.Take() {
+			return
+		}
+		c03One(c, cloneScope(mod, nil), size, 98)
 	})
 	seen := 0
 	for pi, pl := range plans {
